@@ -459,7 +459,11 @@ class Segment:
     def op_PUT(self, op, rec):
         rel = op["path"]
         os.makedirs(os.path.dirname(self.abspath(rel)), exist_ok=True)
-        data = base64.b64decode(op["b64"])
+        if op.get("src") is not None:
+            with simdisk.REAL_OPEN(os.path.join(self.job["repo"], op["src"]), "rb") as fh:
+                data = fh.read()
+        else:
+            data = base64.b64decode(op["b64"])
         with simdisk.REAL_OPEN(self.abspath(rel), "wb") as fh:
             fh.write(data)
         self.files[rel] = {"fmt": op["fmt"], "state": "peer", "expect": op["expect"],
@@ -685,17 +689,27 @@ class Segment:
     def check_stats(self, stats, model, site, tags, prop):
         feats = model.get_features()
         rels = model.get_relations()
+        def kind(r):
+            n = len(r.children)
+            if n == 1:
+                return "mandatory" if (r.card_min, r.card_max) == (1, 1) else \
+                    "optional" if (r.card_min, r.card_max) == (0, 1) else "other"
+            if (r.card_min, r.card_max) == (1, 1):
+                return "alternative"
+            if r.card_min == 1 and r.card_max == n:
+                return "or"
+            return "other"
+        kinds = [kind(r) for r in rels]
         got = {
             "features": len(feats),
-            "mandatory": sum(1 for r in rels if len(r.children) == 1 and
-                             (r.card_min, r.card_max) == (1, 1)),
-            "optional": sum(1 for r in rels if len(r.children) == 1 and
-                            (r.card_min, r.card_max) == (0, 1)),
-            "or": sum(1 for r in rels if len(r.children) > 1 and r.card_min == 1 and
-                      r.card_max == len(r.children)),
-            "alternative": sum(1 for r in rels if len(r.children) > 1 and
-                               (r.card_min, r.card_max) == (1, 1)),
-            "grouped": sum(len(r.children) for r in rels if len(r.children) > 1),
+            "mandatory": kinds.count("mandatory"),
+            "optional": kinds.count("optional"),
+            "or": kinds.count("or"),
+            "alternative": kinds.count("alternative"),
+            "or_children": sum(len(r.children) for r, k in zip(rels, kinds) if k == "or"),
+            "alt_children": sum(len(r.children) for r, k in zip(rels, kinds)
+                                if k == "alternative"),
+            "ctcs": len(model.ctcs),
             "requires": sum(1 for c in model.ctcs if c.ast.root.data.name == "REQUIRES"),
             "excludes": sum(1 for c in model.ctcs if c.ast.root.data.name == "EXCLUDES"),
         }
